@@ -124,10 +124,13 @@ def prepare_unit(name, scratch, with_twins=True, mutate=None, unit=None):
     kf_ids = {f['id'] for f in load_known_findings().get('findings', [])}
     for ln in text.split('\n'):
         code = ln.split('//')[0]
-        if re.search(r'(?<![\w_])assume\s*\(', code):
-            m = re.search(r'//\s*KF:([\w\-]+)', ln)
+        if re.search(r'(?<![\w_])assume\s*\(', code) and not code.lstrip().startswith('///'):
+            m = re.search(r'(?://|/\*)\s*KF:([\w\-]+)', ln)
+            ap = re.search(r'(?://|/\*)\s*AP:', ln)
+            if ap:
+                continue
             if not m or m.group(1) not in kf_ids:
-                raise Undecided('`assume` without a recorded known finding: %s' % ln.strip()[:200])
+                raise Undecided('`assume` without a recorded known finding / assumed-parser tag: %s' % ln.strip()[:200])
     return ur
 
 
@@ -154,6 +157,24 @@ def run_unit(name, scratch, mutate=None, quiet=False):
         missing |= {(m, None) for m in re.findall(r"cannot find function `(\w+)` in this scope", res.fatal)}
         missing |= {(m, t) for t, m in re.findall(r"no function or associated item named `(\w+)` found for (?:struct|enum) `(\w+)`", res.fatal)}
         added = False
+        # functions WITHOUT a contract that use a construct outside the dialect become `external_body`
+        # (no postcondition: callers learn nothing about them) -- DESIGN §8 fallback, listed in evidence
+        for h in getattr(res, 'hard', []):
+            if not re.search(r'is not supported|does not yet support|not supported', h['message']):
+                continue
+            for sp in h['spans']:
+                ln = sp['line_start']
+                ent = None
+                if 1 <= ln <= len(ur.linemap) and ur.linemap[ln - 1]:
+                    ent = ur.linemap[ln - 1][0]
+                if ent is None or ent.kind != 'fn' or ent.trusted:
+                    continue
+                if ent.spec and re.search(r'\bensures\b', ent.spec):
+                    continue      # a function under contract must not be assumed silently
+                ent.trusted = True
+                ent.auto_trusted = True
+                ent.note = 'auto: outside the dialect (%s)' % h['message'][:90]
+                added = True
         for name, ty in sorted(missing, key=str):
             if any(a[0] == name for a in auto):
                 continue
